@@ -19,7 +19,8 @@
    Readers hold the entry (their id is in e_rdrs = the read-lock count) and copy by offset, at most one slot tail per
    read.  An entry is recycled only when it is idle (no writer, no reader); freeEntry on a busy entry only marks it.
 
-   [e_sent] is a ghost: the bytes the writer (= the origin response) has appended so far; [s_log] is a ghost: the
+   [e_sent] is a ghost: the pieces the writer (= the origin response) has appended so far, newest first ([sent e] is
+   their concatenation in order); [r_racc] likewise holds what a reader has copied ([acc rd]); [s_log] is a ghost: the
    (key, version, bytes) of every write that was completed (closeForWriting).
 
    Not modelled: StoreMap's atomics/ABA (C55), updates of stored headers (MemStore::updateHeaders, rock
@@ -50,10 +51,15 @@ Record entry : Type := mkE {
   e_complete : bool;        (* closeForWriting happened *)
   e_dead : bool;            (* waitingToBeFreed / RELEASE_REQUEST *)
   e_rdrs : list N;          (* ids of the readers holding the entry: the read-lock count is its length *)
-  e_sent : bytes }.         (* ghost *)
+  e_sent : list bytes }.    (* ghost: the pieces appended, NEWEST first *)
+
+Definition sent (e : entry) : bytes := concat (rev (e_sent e)).
 
 Record reader : Type := mkR {
-  r_ent : N; r_key : N; r_off : N; r_acc : bytes; r_open : bool; r_done : bool }.
+  r_ent : N; r_key : N; r_off : N;
+  r_racc : list bytes;      (* what the reader has copied so far: the results of its reads, NEWEST first *)
+  r_open : bool; r_done : bool }.
+Definition acc (rd : reader) : bytes := concat (rev (r_racc rd)).
 
 Record state : Type := mkS {
   s_cap : N;
@@ -125,7 +131,7 @@ Definition fill (st : state) (a : N) (e : entry) (s : N) (d : bytes) : state * b
   let n := space_in st s d in
   let now := takeN n d in
   let e' := mkE (e_key e) (e_ver e) (e_rslots e) (e_len e + lenN now) (e_writing e) (e_complete e) (e_dead e)
-                (e_rdrs e) (e_sent e ++ now) in
+                (e_rdrs e) (now :: e_sent e) in
   (mkS (s_cap st) (upd (s_content st) s (s_content st s ++ now)) (s_free st) (s_scan st)
        (upd (s_ents st) a (Some e')) (s_rdrs st) (s_log st),
    dropN n d).
@@ -218,7 +224,7 @@ Definition step (st : state) (o : op) : state :=
     | Some e =>
       if e_writing e then
         put_ent (mkS (s_cap st) (s_content st) (s_free st) (s_scan st) (s_ents st) (s_rdrs st)
-                     ((e_key e, e_ver e, e_sent e) :: s_log st))
+                     ((e_key e, e_ver e, sent e) :: s_log st))
                 a (with_flags e false true (e_dead e) (e_rdrs e))
       else st
     | None => st
@@ -244,10 +250,10 @@ Definition step (st : state) (o : op) : state :=
         match s_ents st (r_ent rd) with
         | Some e =>
           if e_complete e && (r_off rd =? e_len e) then
-            set_rdr st r (mkR (r_ent rd) (r_key rd) (r_off rd) (r_acc rd) true true)
+            set_rdr st r (mkR (r_ent rd) (r_key rd) (r_off rd) (r_racc rd) true true)
           else
             let data := chain_read (chain_of st e) (r_off rd) len in
-            set_rdr st r (mkR (r_ent rd) (r_key rd) (r_off rd + lenN data) (r_acc rd ++ data) true false)
+            set_rdr st r (mkR (r_ent rd) (r_key rd) (r_off rd + lenN data) (data :: r_racc rd) true false)
         | None => st
         end
       else st
@@ -257,7 +263,7 @@ Definition step (st : state) (o : op) : state :=
     match s_rdrs st r with
     | Some rd =>
       if r_open rd then
-        let st1 := set_rdr st r (mkR (r_ent rd) (r_key rd) (r_off rd) (r_acc rd) false (r_done rd)) in
+        let st1 := set_rdr st r (mkR (r_ent rd) (r_key rd) (r_off rd) (r_racc rd) false (r_done rd)) in
         match s_ents st1 (r_ent rd) with
         | Some e => put_ent st1 (r_ent rd)
                       (with_flags e (e_writing e) (e_complete e) (e_dead e)
@@ -402,7 +408,7 @@ Definition hit (st : state) (r a k len : N) (fuel : nat) : state * option bytes 
   | Some _ =>
     let st2 := read_all fuel st1 r len in
     let res := match s_rdrs st2 r with
-               | Some rd => if r_done rd then Some (r_acc rd) else None
+               | Some rd => if r_done rd then Some (acc rd) else None
                | None => None
                end in
     (step st2 (CloseR r), res)
@@ -422,8 +428,10 @@ Definition mk_meta (key : bytes) (mlen : N) : bytes :=
                + (hits_meta_type_size + hits_meta_len_size) in
   [hits_meta_magic] ++ le32_enc mlen ++ [hits_meta_key_md5] ++ le32_enc hits_md5_len ++ key
   ++ [hits_meta_url] ++ le32_enc (mlen - fixed) ++ fillN (mlen - fixed - 1) 117 ++ [0].
+Definition mk_prefix (k : kind) (key : bytes) (mlen hlen : N) : bytes :=
+  (if has_meta k then mk_meta key mlen else []) ++ mk_hdr hlen.
 Definition mk_stream (k : kind) (key : bytes) (mlen hlen v blen : N) : bytes :=
-  (if has_meta k then mk_meta key mlen else []) ++ mk_hdr hlen ++ mk_body v blen.
+  mk_prefix k key mlen hlen ++ mk_body v blen.
 
 (* Adler-32 of a byte string (what the check computes on the bytes squid sent) *)
 Definition adler_step (s : N * N) (c : N) : N * N :=
@@ -452,13 +460,14 @@ Definition fixed_anchor (k : kind) : bool := match k with KShm | KRock => true |
 
 Definition seq_store (k : kind) (q : seqst) (u : N) (key : bytes) (mlen hlen v blen : N) (sizes : list N)
   : seqst * sres :=
-  let stream := mk_stream k key mlen hlen v blen in
+  let body := mk_body v blen in
+  let stream := mk_prefix k key mlen hlen ++ body in
   let st0 := match q_idx q u with Some a => step (q_st q) (Evict a) | None => q_st q end in
   let a := if fixed_anchor k then u else q_next q in
   let st1 := store_version st0 a u v (chunks (S (length stream)) sizes hits_sm_page_size stream) in
   let stored := match s_ents st1 a with Some e => e_complete e && negb (e_dead e) | None => false end in
   (mkQ st1 (upd (q_idx q) u (if stored then Some a else None)) (q_next q + 1),
-   let body := mk_body v blen in RMiss (lenN body) (adler32 body)).
+   RMiss (lenN body) (adler32 body)).
 
 Definition seq_step (k : kind) (q : seqst) (o : sop) : seqst * sres :=
   match o with
